@@ -20,8 +20,13 @@ def rule_event(q, dim, order, cell, tid):
         pts, w = f(dim, order)
     except NotImplementedError:
         return {"op": "rejected", "tid": tid, "dim": dim, "order": str(order), "cell": cell}
-    pts = np.asarray(pts, dtype=float).reshape(len(pts), -1)
-    w = np.asarray(w, dtype=float).ravel()
+    raw_pts, raw_w = pts, w
+    pts = np.array(pts, dtype=float).reshape(len(pts), -1)
+    w = np.array(w, dtype=float).ravel()
+    # a caller may scale / shift what it got in place (mapping the rule to its own cell): later requests must not see that
+    for arr_ in (raw_pts, raw_w):
+        if isinstance(arr_, np.ndarray) and arr_.flags.writeable:
+            arr_[...] = 0
     n = order + 1 if isinstance(order, int) else int(round(len(pts) ** (1.0 / dim)))
     mom = []
     if len(w) == len(pts):
@@ -69,9 +74,9 @@ def run(ck, replay=None):
     bad = ck.validate("Trace_Quadrature", "Trace.cfg", events)
     for b in bad:
         e = b["event"]
-        sig = f"C15:{b['clause']}:{e['op']}:{e['dim']}d:" + (f"order{e['order']}:{e['cell']}" if e["op"] == "rule" else "corner")
+        sig = f"C15:{b['clause']}:{e['op']}:{e['dim']}d:" + (f"order{e['order']}:{e['cell']}" if e["op"] in ("rule", "rejected") else "corner")
         ck.violation(sig, f"quadrature rule dim={e['dim']} order={e.get('order')} cell={e.get('cell')} violates {b['clause']}",
-                     {"dim": e["dim"], "order": e.get("order"), "cell": e.get("cell"), "npts": len(e["pts"]), "nw": len(e.get("w", e.get("wi")))})
+                     {"dim": e["dim"], "order": e.get("order"), "cell": e.get("cell"), "npts": len(e.get("pts", [])), "nw": len(e.get("w", e.get("wi", [])))})
     acc = [e for e in events if e["op"] != "rejected"]
     ck.cov["evaluations"] = len(events)
     ck.cov["distinct_nontrivial"] = len(acc)
